@@ -33,6 +33,9 @@ func init() {
 		Assumptions: []string{"a store answering with a nil map is not exercised (a nil map is Go's empty map for reads; the interface does not say who owns the returned map)"},
 	})
 	Generators["C10"] = func(t *rapid.T, tier string) any {
+		if gen.Chance(t, "wide", 8) {
+			return wideQueryCase(t)
+		}
 		k := gen.DefaultKnobs()
 		k.PBalanceOrigin = 55
 		k.PWorldOddPlaces = 12
@@ -56,6 +59,29 @@ func init() {
 		}
 		return ec
 	}
+}
+
+// wideQueryCase: one request for many accounts (stores may page or split large requests).
+func wideQueryCase(t *rapid.T) *gen.ExecCase {
+	n := 9 + gen.Uniform(t, "wide.n", 40)
+	ec := &gen.ExecCase{Script: &gen.Script{}, Vars: map[string]string{}, Balances: map[string]map[string]string{}}
+	src := &gen.Src{Kind: gen.SInorder}
+	total := 0
+	for i := 0; i < n; i++ {
+		name := fmt.Sprintf("acc%02d", i)
+		b := 1 + gen.Uniform(t, "wide.bal", 9)
+		total += b
+		ec.Balances[name] = map[string]string{"USD": fmt.Sprint(b)}
+		src.Subs = append(src.Subs, &gen.Src{Kind: gen.SAcct, Addr: gen.Acct(name)})
+	}
+	ec.Balances["world"] = map[string]string{"USD": "5"}
+	sent := gen.Mon(gen.Asset("USD"), gen.NumI(int64(total-gen.Uniform(t, "wide.less", 3))))
+	st := &gen.Stmt{Kind: gen.StSend, Sent: sent, Src: src, Dst: &gen.Dst{Kind: gen.DAcct, Addr: gen.Acct("dest")}}
+	if gen.Chance(t, "wide.all", 30) {
+		st.All, st.Sent = true, gen.Asset("USD")
+	}
+	ec.Script.Stmts = []*gen.Stmt{st}
+	return ec
 }
 
 func staticStore(ec *gen.ExecCase) numscript.StaticStore {
@@ -194,6 +220,34 @@ func init() {
 	}
 }
 
+// variantVars rebinds the account variables of the case (to world and to other accounts).
+func variantVars(ec *gen.ExecCase) map[string]string {
+	alt := map[string]string{}
+	changed := false
+	i := 0
+	for _, d := range ec.Script.Vars {
+		val, ok := ec.Vars[d.Name]
+		if !ok {
+			continue
+		}
+		if d.Type == "account" && d.Origin == nil {
+			choices := []string{"world", "b", "a", "zz"}
+			nv := choices[i%len(choices)]
+			i++
+			if nv != val {
+				changed = true
+			}
+			alt[d.Name] = nv
+			continue
+		}
+		alt[d.Name] = val
+	}
+	if !changed {
+		return nil
+	}
+	return alt
+}
+
 func snapshotStatic(s numscript.StaticStore) string {
 	b := map[string]map[string]string{}
 	for a, m := range s.Balances {
@@ -321,6 +375,48 @@ func checkC11(c any) *ev.Verdict {
 		}
 	}
 	outcomeLabel(first, v)
+	// (a') re-entrancy across different inputs: a run with other variable values on the same
+	// parsed script must give what a fresh parse gives, and must not change what the original
+	// variables give afterwards
+	if alt := variantVars(ec); alt != nil {
+		store, _ := kinds[1].mk()
+		altOnShared := runOnce(alt, store, flags)
+		freshPR := numscript.Parse(text)
+		store2, _ := kinds[1].mk()
+		altFresh := func() (out hx.Real) {
+			defer func() {
+				if r := recover(); r != nil {
+					out.Panic = fmt.Sprint(r)
+				}
+			}()
+			res, err := freshPR.RunWithFeatureFlags(context.Background(), alt, store2, flags)
+			return hx.Normalise(res, err)
+		}()
+		if altOnShared.Panic == "" && altFresh.Panic == "" && fullSummary(altOnShared) != fullSummary(altFresh) {
+			return v.Failf("parse-result-state", "with the variables %v the parsed script that already ran gives %s, a fresh parse of the same text gives %s", alt, fullSummary(altOnShared), fullSummary(altFresh))
+		}
+		store3, _ := kinds[1].mk()
+		again := runOnce(ec.Vars, store3, flags)
+		if again.Panic == "" && fullSummary(again) != fullSummary(first) {
+			return v.Failf("parse-result-state", "after a run with the variables %v, the original variables give %s instead of %s", alt, fullSummary(again), fullSummary(first))
+		}
+		// and both variable sets concurrently on the same parsed script (race detector)
+		var wg sync.WaitGroup
+		for g := 0; g < 4; g++ {
+			wg.Add(1)
+			go func(g int) {
+				defer wg.Done()
+				st, _ := kinds[1].mk()
+				if g%2 == 0 {
+					runOnce(alt, st, flags)
+				} else {
+					runOnce(ec.Vars, st, flags)
+				}
+			}(g)
+		}
+		wg.Wait()
+		v.Label("variant-vars")
+	}
 	// (d) flags
 	usesOverdraft := false
 	for _, d := range ec.Script.Vars {
